@@ -271,6 +271,9 @@ struct monitor
   long long best_before = 0;
   bool have_best = false;
   unsigned long events = 0;
+  unsigned run_no = 0;          // how many times `begin` was called (= runs started so far)
+  bool same_object = false;     // consecutive runs of ONE evolution object (whole_run): the later
+                                // `begin`s are restarts (population carried over, summary cleared)
 
   std::string state_line(const char *mode, unsigned gen) const
   {
@@ -326,9 +329,14 @@ struct monitor
     shape0.clear();
     for (unsigned l(0); l < p.layers(); ++l) shape0.push_back(p.individuals(l));
     snap = snapshot(p, fc);
-    have_best = false;
-    emit("ok", "-", cfg.cfg_line());
-    emit(state_oracle(s.gen), "-", state_line("init", s.gen));
+    have_best = false;       // the best-so-far individual restarts from pop[{0,0}]: monotone within a run only
+    const bool restart(same_object && run_no > 0);
+    ++run_no;
+    if (!restart)
+      emit("ok", "-", cfg.cfg_line());
+    // `evolution::run` has just executed `stats_.clear(); best = pop[{0,0}]; fitness = eva(best)`
+    // (es_.init() is called right after): every clause must hold here, in every run
+    emit(state_oracle(s.gen), "-", state_line(restart ? "restart" : "init", s.gen));
     best_before = static_cast<long long>(s.best.score.fitness[0]);
     have_best = true;
   }
@@ -548,7 +556,7 @@ template<class T> using mon_de_alps = mon_es<T, de_alps_es>;
 // case: whole run through the real evolution<T, ES>::run
 // ---------------------------------------------------------------------------------------
 template<class T, template<class> class ES>
-void whole_run(const runcfg &c)
+void whole_run(const runcfg &c, unsigned runs)
 {
   prob_for<T> pf;
   c.apply(pf.prob.env);
@@ -558,6 +566,7 @@ void whole_run(const runcfg &c)
   monitor<T> mon;
   mon.cfg = c;
   mon.fc = fitcfg{c.fitk};
+  mon.same_object = true;
   g_mon<T> = &mon;
 
   evolution<T, ES> evo(pf.prob, *eva);
@@ -567,10 +576,25 @@ void whole_run(const runcfg &c)
                          ++callbacks;
                          if (&p != mon.pop || &s != mon.sum)
                            emit("bad:callback-sees-other-objects", "-", "noop");
+                         // the public observation point of the property ("after every generation")
+                         if (s.last_imp > s.gen)
+                           emit("bad:last-imp-after-gen", "-", "noop");
                        });
-  const auto &s(evo.run(0));
-  if (callbacks != s.gen)
-    emit("bad:callback-count", "-", "noop");
+  // `runs` consecutive runs of the SAME evolution object (the `run_count` argument of
+  // evolution::run exists for this): run r > 0 goes on from the population run r-1 evolved
+  for (unsigned r(0); r < runs; ++r)
+  {
+    callbacks = 0;
+    const auto &s(evo.run(r));
+    if (mon.run_no != r + 1)
+      emit("bad:run-not-monitored", "-", "noop");
+    if (callbacks != s.gen)
+      emit("bad:callback-count", "-", "noop");
+    if (s.last_imp > s.gen)
+      emit("bad:last-imp-after-gen", "-", "noop");
+    if (s.best.score.fitness.size() != 1 || s.best.score.fitness[0] != raw_fit(s.best.solution, mon.fc))
+      emit("bad:best-not-eval", "-", "noop");
+  }
   g_mon<T> = nullptr;
 }
 
@@ -633,14 +657,15 @@ void case_run(const std::vector<std::string> &t)
   std::map<std::string, std::string> extra;
   const runcfg c(parse_cfg(t, 1, &extra));
   const std::string ind(extra["T"]);
-  if (c.strat == "std" && ind == "mep") whole_run<i_mep, mon_std>(c);
-  else if (c.strat == "std" && ind == "ga") whole_run<i_ga, mon_std>(c);
-  else if (c.strat == "std" && ind == "team") whole_run<team<i_mep>, mon_std>(c);
-  else if (c.strat == "alps" && ind == "team") whole_run<team<i_mep>, mon_alps>(c);
-  else if (c.strat == "alps" && ind == "mep") whole_run<i_mep, mon_alps>(c);
-  else if (c.strat == "alps" && ind == "ga") whole_run<i_ga, mon_alps>(c);
-  else if (c.strat == "de" && ind == "de") whole_run<i_de, mon_de>(c);
-  else if (c.strat == "alps" && ind == "de") whole_run<i_de, mon_de_alps>(c);
+  const unsigned runs(extra.count("runs") ? std::stoul(extra["runs"]) : 1u);
+  if (c.strat == "std" && ind == "mep") whole_run<i_mep, mon_std>(c, runs);
+  else if (c.strat == "std" && ind == "ga") whole_run<i_ga, mon_std>(c, runs);
+  else if (c.strat == "std" && ind == "team") whole_run<team<i_mep>, mon_std>(c, runs);
+  else if (c.strat == "alps" && ind == "team") whole_run<team<i_mep>, mon_alps>(c, runs);
+  else if (c.strat == "alps" && ind == "mep") whole_run<i_mep, mon_alps>(c, runs);
+  else if (c.strat == "alps" && ind == "ga") whole_run<i_ga, mon_alps>(c, runs);
+  else if (c.strat == "de" && ind == "de") whole_run<i_de, mon_de>(c, runs);
+  else if (c.strat == "alps" && ind == "de") whole_run<i_de, mon_de_alps>(c, runs);
   else emit("bad:unknown-run-case", "-", "noop");
 }
 
@@ -730,7 +755,8 @@ void components(const runcfg &c, const std::string &what, unsigned count)
 
     bool members(true);
     for (auto p : ps) members = members && mon.member(p);
-    if (!members || ps.size() < 2)
+    // (family_competition and ALPS replacement read parent[1]; replacement::tournament only parent.back())
+    if (!members || ps.empty() || (ps.size() < 2 && (what == "family" || c.strat == "alps")))
       continue;
 
     typename replacement::strategy<T>::offspring_t off{new_off()};
